@@ -165,6 +165,35 @@ def driver_obligations(R, tier):
                                     note('any split of the requests over two successive calls gives the same final table',
                                          t2 == full, ctx + f' split after {cut_v} vars / {cut_e} estimates: keys differing '
                                          f'{sorted(k for k in set(full) | set(t2) if full.get(k) != t2.get(k))[:5]}')
+    # estimates-only calls (vars == []) on tables that already carry SOME of the requested estimate columns (a table merged
+    # by the user, or one from which columns were dropped to have them redone): the final table must be the complete one
+    for nsteps in (1, 2, 3):
+        for est in est_sets[1:]:
+            RecCore.instances.clear()
+            base = make_data(nsteps, tuple(reversed(range(nsteps))), 'it')
+            try:
+                full = fns['over_time'](base, fd, vars=[], estimates=list(est), verbose=False)
+            except Exception as e:
+                note('over_time does not raise', False, f'estimates-only call: {type(e).__name__}: {e}')
+                continue
+            tfull = table(full)
+            ecols = [k for k in tfull if k not in ('it', 'in0', 'in1')]
+            drops = [[c_] for c_ in ecols] + [[c_ for c_ in ecols if c_.startswith('in0_')], [c_ for c_ in ecols if c_.startswith('in1_')],
+                                               [c_ for c_ in ecols if not c_.startswith('in1_') or c_.endswith('_max')]]
+            for drop in drops:
+                if not drop:
+                    continue
+                ncases += 1
+                part = {k: list(v) for k, v in full.items() if k not in drop}
+                try:
+                    again = fns['over_time'](part, fd, vars=[], estimates=list(est), verbose=False)
+                except Exception as e:
+                    note('over_time does not raise', False, f'estimates-only call on a partially filled table: {type(e).__name__}: {e}')
+                    continue
+                t2 = table(again)
+                note('an estimates-only call completes a table that already holds some of the estimate columns',
+                     t2 == tfull, f'{nsteps} steps, estimates {est}, table without {drop}: columns missing or different afterwards '
+                     f'{sorted(k for k in set(tfull) | set(t2) if tfull.get(k) != t2.get(k))[:6]}')
     return checks, ncases
 
 
@@ -241,6 +270,20 @@ def native_replay(o=None):
     except Exception as e:
         bad = True
         lines.append(f'over_time with a user column raised {type(e).__name__}: {e}')
+    # estimates-only call on a table that already holds the estimate of its LAST scalar column but not of an earlier one
+    try:
+        ctr = lambda a: float(a[1, 1, 1])
+        tab = {'it': [5, 20], 'alpha': [1 + 0.1 * x, 1 + 0.2 * x], 'rho': [2 + x, 3 + x * x]}
+        full = aurel.over_time({k: list(v) for k, v in tab.items()}, fd, vars=[], estimates=[{'ctr': ctr}], verbose=False)
+        part = {k: v for k, v in full.items() if k != 'alpha_ctr'}
+        again = aurel.over_time(part, fd, vars=[], estimates=[{'ctr': ctr}], verbose=False)
+        if 'alpha_ctr' not in again or not np.allclose(again['alpha_ctr'], [ctr(a) for a in tab['alpha']]):
+            bad = True
+            lines.append("estimates-only call with a custom estimator on a table that holds rho_ctr but not alpha_ctr: "
+                         f"alpha_ctr {'missing' if 'alpha_ctr' not in again else 'wrong'} afterwards (columns {sorted(again)})")
+    except Exception as e:
+        bad = True
+        lines.append(f'estimates-only call on a partially filled table raised {type(e).__name__}: {e}')
     return bad, '\n'.join(lines) or 'real over_time on 3 steps given out of order (built-in + custom variables reading a user column, one call and two calls): every row consistent'
 
 
